@@ -23,6 +23,7 @@ import (
 	"time"
 
 	"github.com/samber/lo"
+	utilerrors "k8s.io/apimachinery/pkg/util/errors"
 	"k8s.io/apimachinery/pkg/util/wait"
 	"k8s.io/utils/ptr"
 	"sigs.k8s.io/controller-runtime/pkg/builder"
@@ -330,17 +331,19 @@ func (m *ReconcilePod) podDelete(ctx context.Context, namespacedName client.Obje
 }
 
 func (m *ReconcilePod) deleteAllENI(ctx context.Context, podENI *v1beta1.PodENI) error {
+	// try every eni, a failed delete must not keep the remaining ones from being rolled back
+	var errs []error
 	for _, alloc := range podENI.Spec.Allocations {
 		if alloc.ENI.ID == "" {
 			continue
 		}
 		err := m.aliyun.DeleteNetworkInterface(common.WithCtx(ctx, &alloc), alloc.ENI.ID)
 		if err != nil {
-			return err
+			errs = append(errs, fmt.Errorf("delete eni %s, %w", alloc.ENI.ID, err))
 		}
 	}
 
-	return nil
+	return utilerrors.NewAggregate(errs)
 }
 
 func (m *ReconcilePod) getNode(ctx context.Context, name string) (*corev1.Node, error) {
